@@ -6,5 +6,5 @@ pub mod task;
 pub mod thread;
 
 pub use chooser::{dfs, dfs_par, Chooser, DfsCfg, DfsStats};
-pub use report::{catch, h64, quiet_panics, Args, Report};
+pub use report::{catch, guard_main, h64, quiet_panics, Args, Report};
 pub use serde_json::{json, Value};
